@@ -240,6 +240,9 @@ func c13Types(c *work.Ctx) {
 			c13Check(c, t, v, p, id, func(rel, kind, detail string) {
 				c.Outcome(rel + kind)
 				bv := blame(v, func(cv reflect.Value) bool {
+					if fatalPlaced(cv.Type(), p) {
+						return false // a component that alone is a listed fatal shape is not executed here
+					}
 					failed := false
 					c13Check(c, cv.Type(), cv, p, id, func(r2, k2, _ string) {
 						if r2 == rel {
